@@ -212,7 +212,58 @@ def plan_C18(tier, seed):
         exhaustive=True, assumptions=["TLC", "encoding/json"])
 
 
-PLANS = {"C05": plan_C05, "C18": plan_C18, "C19": plan_C19, "C17": plan_C17, "C08": plan_C08, "C11": plan_C11, "C12": plan_C12, "C03": plan_C03, "C06": plan_C06, "C01": plan_C01, "C02": plan_C02, "C07": plan_C07}
+def plan_C15(tier, seed):
+    j = tlc("c15_defaults", "MC_Defaults", {"K": 1 if tier == "quick" else 2, "DEV_EmptyContainerDefault": "FALSE"},
+            ["LawsHold", "Emit"], workers=6)
+    return dict(
+        tlc=[j], parallel=1,
+        replay=[dict(name="c15_replay", family="defaults", inputs=[j["name"]])],
+        rule="root schemas with defaults at depth <= 2 (thorough 3) of properties: defaults of every JSON type incl. null and "
+             "object defaults lacking nested defaults, on object and non-object subschemas, with/without required at each "
+             "level x 16 instances (every subset of the properties present, non-objects at any position); TLC checks the L0 "
+             "laws (idempotent, preserving, never-required, every insertion justified) on the code-shaped walk; the harness "
+             "compares the instance after ApplyDefaults with the model's, re-applies (history), and compares "
+             "Resolve(ValidateDefaults) ok/err with 'every default validates against its declaring subschema'; non-trivial = "
+             "some instance changes or ValidateDefaults must fail",
+        exhaustive=True, assumptions=["TLC", "encoding/json decoding of defaults and instances"])
+
+
+def plan_C20(tier, seed):
+    j = tlc("c20_clone", "MC_Clone", {"K": 1 if tier == "quick" else 2, "MUT_SkipField": q("none")}, ["CloneOK", "Emit"], workers=6)
+    return dict(
+        tlc=[j], parallel=1,
+        replay=[dict(name="c20_replay", family="clone", inputs=[j["name"]])],
+        rule="Schema trees with a subschema under every schema-valued, schema-array-valued and schema-map-valued field (both "
+             "drafts' fields) at depth 1, all 23x23 field pairs at depth 2, wide trees populating every field at once, empty "
+             "containers and (thorough) depth 3; TLC checks the heap model (equal shape, disjoint ids, mutation independence); "
+             "the harness builds the tree as a Go literal and checks pointer sets (own reflective walker), marshaled bytes, "
+             "Resolve of a parent holding both, and that assigning to every field / slice element / map entry of every object "
+             "of one tree leaves the other's bytes unchanged, both ways; non-trivial = more than one Schema object",
+        exhaustive=True, assumptions=["TLC", "harness literal builder and reflective walker"])
+
+
+def plan_C14(tier, seed):
+    life = tlc("c14_lifecycle", "MC_Lifecycle", {"DEV_MutateLoadedDoc": "FALSE", "MaxHist": 3 if tier == "quick" else 4},
+               ["Deterministic", "Pure", "Emit"], workers=4)
+    ev = eval_jobs("c14", [("F3", 2), ("F5", 1), ("U1", 1)], "2020") + eval_jobs("c14", [("G2", 2), ("G5", 1)], "d7")
+    rs = res_jobs("c14", [("R2", 1)])
+    return dict(
+        tlc=[life] + ev + rs, parallel=4,
+        replay=[dict(name="c14_history", family="history", inputs=[life["name"]]),
+                dict(name="c14_pure", family="pure", inputs=[j["name"] for j in ev + rs],
+                     processes=2 if tier == "quick" else 4)],
+        rule="(a) Lifecycle.tla: all histories of Resolve/Validate/Marshal calls of length 3 (thorough 4) over a draft-07 root, "
+             "a 2020-12 root and one remote document shared through a memoising Loader; every call's result must be the "
+             "history-independent Expected value and no caller-owned object may change (deep reflective snapshots around every "
+             "call). (b) the universes of the map-heavy evaluator families (F3, F5, U1, G2, G5) and of the Loader family R2 "
+             "replayed with snapshots of schema, Loader documents and instance around every call, each Resolve done twice, "
+             "each Validate three times, Marshal before/after, and the whole replay repeated in 2 (thorough 4) fresh "
+             "processes whose digests of verdict vectors and bytes must be identical. Non-trivial = history longer than one "
+             "call / discriminating verdict vector.",
+        exhaustive=True, assumptions=["TLC", "harness deep fingerprint (reflection) of Schema trees and instances"])
+
+
+PLANS = {"C14": plan_C14, "C20": plan_C20, "C15": plan_C15, "C05": plan_C05, "C18": plan_C18, "C19": plan_C19, "C17": plan_C17, "C08": plan_C08, "C11": plan_C11, "C12": plan_C12, "C03": plan_C03, "C06": plan_C06, "C01": plan_C01, "C02": plan_C02, "C07": plan_C07}
 
 
 def plan(prop, tier, seed):
